@@ -429,3 +429,87 @@ def x9(ctx):
                       "evaluates the time range from all of them - depending on which key an earlier query got indexed, events are evaluated without their "
                       "DTEND/DURATION" % (src(bad[0][1]) if bad else "")))
     return obs
+
+
+def _lookup_failed(cfg, du, r):
+    """Reaching *r* implies that the lookup in ``component_handlers`` found nothing: a `K not in handlers` test,
+    or a None / falsy test on a value that comes from ``handlers.get(K)``."""
+    from ..dataflow import origins
+    by_ast = {}
+    for n in cfg.nodes:
+        if n.kind == "test":
+            by_ast.setdefault(id(n.ast), n)
+    for t, pol in cfg.required_conditions(r):
+        tn = by_ast.get(id(t))
+        if isinstance(t, ast.Compare) and len(t.ops) == 1:
+            op, rhs = t.ops[0], t.comparators[0]
+            if isinstance(op, (ast.In, ast.NotIn)) and "component_handlers" in src(rhs):
+                if isinstance(op, ast.NotIn) == pol:
+                    return True
+                continue
+            if isinstance(rhs, ast.Constant) and rhs.value is None and isinstance(op, (ast.Is, ast.IsNot)):
+                x, none_pol = t.left, (pol if isinstance(op, ast.Is) else not pol)
+            else:
+                continue
+        elif isinstance(t, ast.UnaryOp) and isinstance(t.op, ast.Not):
+            x, none_pol = t.operand, pol
+        elif isinstance(t, ast.Name):
+            x, none_pol = t, not pol
+        else:
+            continue
+        if not none_pol or tn is None:
+            continue
+        os_ = origins(du, tn, x)
+        if os_ and all(o.kind == "expr" and isinstance(o.leaf, ast.Call) and isinstance(o.leaf.func, ast.Attribute)
+                       and o.leaf.func.attr == "get" and "component_handlers" in src(o.leaf.func.value)
+                       and (len(o.leaf.args) == 1 or (isinstance(o.leaf.args[1], ast.Constant) and o.leaf.args[1].value is None))
+                       for o in os_):
+            return True
+    return False
+
+
+@rule("C10", "X10", floor=3, kind="S",
+      desc="the index evaluators have no shortcut the naive evaluators lack: ComponentTimeRangeMatcher.match_indexes "
+           "answers with the RFC 4791 s.9.9 handler (False only for an unknown component type, as match() does), and "
+           "ComponentFilter.match_indexes answers True without looking at the component's presence marker only when a "
+           "child already requires the component")
+def x10(ctx):
+    from ..dataflow import DefUse, origins
+    from .common import handler_catching
+    obs = []
+    fi = ctx.own_method(ICAL + ".ComponentTimeRangeMatcher", "match_indexes")
+    cfg = ctx.cfg(fi)
+    du = DefUse(cfg)
+    rets = [n for n in cfg.nodes if n.kind == "return"]
+    if not rets:
+        raise AnalysisError("ComponentTimeRangeMatcher.match_indexes has no return")
+    for r in rets:
+        v = r.ast.value
+        os_ = origins(du, r, v) if v is not None else []
+        via_handler = bool(os_) and all(
+            o.kind == "expr" and isinstance(o.leaf, ast.Call) and any(
+                ho.leaf is not None and "component_handlers" in src(ho.leaf) for ho in origins(du, o.node, o.leaf.func))
+            for o in os_)
+        const_false = isinstance(v, ast.Constant) and v.value is False
+        in_unknown_comp = (r.handler is not None and r.handler.types is not None and "KeyError" in r.handler.types) \
+            or _lookup_failed(cfg, du, r)
+        ok = via_handler or (const_false and in_unknown_comp)
+        obs.append(ctx.ob(ok, fi.qualname, where(fi, r), "time-range result comes from the section 9.9 handler",
+                          "`%s`" % (src(v) if v is not None else "return"),
+                          "ComponentTimeRangeMatcher.match_indexes answers `%s` without consulting the RFC 4791 section 9.9 handler for the component "
+                          "(match() only does that for an unknown component type): e.g. a VTODO without any time property matches every range on "
+                          "the naive path but drops out once the query is answered from the index" % (src(v) if v is not None else "None")))
+    cf = ctx.own_method(ICAL + ".ComponentFilter", "match_indexes")
+    cfg = ctx.cfg(cf)
+    trues = [n for n in cfg.nodes if n.kind == "return" and isinstance(n.ast.value, ast.Constant) and n.ast.value.value is True]
+    if not trues:
+        raise AnalysisError("ComponentFilter.match_indexes: `return True` not found")
+    for r in trues:
+        req = cfg.required_conditions(r)
+        ok = any(pol and isinstance(t, ast.Call) and (dotted(t.func) or "").endswith("_implicitly_defined") for t, pol in req)
+        obs.append(ctx.ob(ok, cf.qualname, where(cf, r), "True without presence check only if a child requires the component",
+                          "`return True` requires self._implicitly_defined()",
+                          "ComponentFilter.match_indexes can answer True although nothing established that the component exists (the presence marker "
+                          "indexes[\"C=<name>\"] is skipped when `%s`): resources without such a component are returned once the index is in use"
+                          % " and ".join(("" if pol else "not ") + src(t) for t, pol in req if "self." in src(t))))
+    return obs
